@@ -89,3 +89,36 @@ pub fn run_threads(threads: Vec<HThread>, ex: &mut Explorer, max_steps: usize) -
     let events = verif::take_events();
     HRun { events, names, steps, stuck, overrun }
 }
+
+/// Free running: the same roles on real, uncontrolled OS threads released together by a barrier (points only record).
+/// This reaches interleavings inside code that has no point -- a window a change opens inside a region the hooks treat
+/// as atomic -- by chance, not by enumeration. Only lines logged at safe positions may be kept by the caller: an intent
+/// logged before a call, a result logged after it, observations of state no other thread of the run can change.
+pub fn run_threads_free(threads: Vec<HThread>, spin: &[u32]) -> HRun {
+    verif::reset_threads();
+    verif::enable(true);
+    let _ = verif::take_events();
+    let mut names = Names::default();
+    let barrier = std::sync::Arc::new(std::sync::Barrier::new(threads.len()));
+    let mut hs = vec![];
+    for (i, th) in threads.into_iter().enumerate() {
+        let id = (i + 1) as u64;
+        names.who.insert(format!("t{id}"), th.role.clone());
+        let b = barrier.clone();
+        let sp = spin.get(i).copied().unwrap_or(0);
+        let f = th.f;
+        hs.push(std::thread::spawn(move || {
+            verif::name_thread(id);
+            b.wait();
+            for _ in 0..sp {
+                std::hint::spin_loop();
+            }
+            f();
+        }));
+    }
+    for h in hs {
+        let _ = h.join();
+    }
+    let events = verif::take_events();
+    HRun { events, names, steps: 0, stuck: vec![], overrun: false }
+}
